@@ -17,6 +17,7 @@ Definition line_output (prompt cont : text) (l : text) : text :=
       else if N.eqb c 98 then flat_map (fun x => repeat x 40) payload ++ crlf   (* b<text>: large output *)
       else if N.eqb c 112 then [115; 101; 101; 32]%N ++ prompt ++ [33]%N ++ crlf     (* p: prints the prompt string itself *)
       else if N.eqb c 113 then [115; 101; 101; 32]%N ++ cont ++ [33]%N ++ crlf       (* q: prints the continuation prompt *)
+      else if N.eqb c 115 then l ++ crlf                               (* s<text>: prints the command line itself *)
       else [63]%N ++ l ++ crlf
   end.
 
